@@ -34,12 +34,39 @@ Idioms added for `build_xpc` (each one only when its table is given; the two ear
     for c in xs: <body> acc := acc ++ (xs).flatMap (fun x1 => <what the body adds for x1>) when `acc` is bound to `[]` at that point,
                         is not a state variable, the body reads `acc` only as the receiver of `append` / `extend`, changes no
                         other variable and the loop has no `else`, `break` or `continue`
+Idioms added for the Kahn loops of structure/node.py (`topological_order`, `topological_order_layered`); each one only when the
+table `counters` is given (the three earlier fragments do not pass it, their output is unchanged):
+    d = defaultdict(int)   d := emptyCount              for the dictionaries of integer counters named in `counters`
+    d[k] = 3               d := (setCount d k 3)        (non-negative integer literal)
+    d[k] += 1 / d[k] -= 1  d := (setCount d k ((getCount d k) + 1)) / … - 1)
+    d[k]                   (getCount d k)               an INTEGER term (a missing key reads 0: `defaultdict(int)`)
+    sum(d.values())        (sumValues d)                an INTEGER term (uninterpreted: the sum over the keys present)
+    a == b, a != b         (a == b), (a != b)           for INTEGER terms
+    list(), deque([a])     [], [a]                      (a deque is a list whose FRONT is its head)
+    not xs                 (xs).isEmpty                 for the local lists named in `lists`
+    xs[-1]                 last                         for the lists in `last_of`, read before any change of xs: hoisted into
+                           `match xs.getLast? with | none => raised | some last => …` (`raised`: the IndexError branch, a parameter)
+    for c in xs: <body>    vars := (xs).foldl (fun (st1 : types) x1 => <the values after the body>) (vars) for the variables
+                           `vars` the body changes (state variables first, in state order, then locals in order of definition);
+                           nested `for` loops allowed, no `else` / `break` / `continue` / `return`; types from `types`
+    while q: node = q.popleft(); …     `loop_step_queue`:   match q.head? with | none => <unchanged> | some node => … (q := q.tail)
+    while True: … if c: break …        `loop_step_forever`: (c, <state at the break if c else the state after the body>); exactly one
+                           top-level `if c: break`
+Idioms added for the generators `bfs` / `dfs_post_order` of structure/node.py; only when the table `sets` is given:
+    s = {a}                s := [a]                     a set of node objects read ONLY through membership tests: a list
+    s.add(c)               s := s ++ [c]
+    c not in s             (!(isIn c s))
+    set(xs).issubset(s)    ((xs).all (fun x1 => (isIn x1 s)))
+    yield e                yielded := yielded ++ [e]    (`yields`: the list of everything the generator has produced so far)
+    xs.pop()               xs := xs.dropLast            (as a statement)
+    if c: …; continue      `loop_step_stack`: at the top level of the loop body, the statements after it become its `else` branch
 Anything else raises Untranslatable — never a default reading."""
 import ast
 
 
 class LP:
-    def __init__(self, T, what, state, methods, ctors, tables, member='isIn', attrs=None, classes=None, opaque=None, div=None):
+    def __init__(self, T, what, state, methods, ctors, tables, member='isIn', attrs=None, classes=None, opaque=None, div=None,
+                 counters=None, lists=None, last_of=None, types=None, sets=None, yields=None):
         self.T, self.U, self.what = T, T.Untranslatable, what
         self.state = list(state)          # [(python name, lean name)]
         self.methods, self.ctors, self.tables, self.member = methods, ctors, tables, member
@@ -47,6 +74,13 @@ class LP:
         self.ext = bool(attrs or classes or opaque or div)      # the idioms added for `build_xpc` are enabled
         self.aliases = set()
         self.depth = 0                    # nesting depth of bound variables (comprehensions, `for` loops): canonical names x1, x2, …
+        # the Kahn-loop idioms: counters = {python name: (getCount, setCount, emptyCount, sumValues)}
+        self.counters, self.lists, self.last_of, self.types = counters or {}, set(lists or ()), set(last_of or ()), types or {}
+        self.cnt = bool(self.counters)
+        self.need_last = None
+        # the generator idioms: sets = python names of sets of objects (read through membership only), yields = python-side key of the
+        # state component that collects the yielded values
+        self.sets, self.yields = set(sets or ()), yields
 
     def fail(self, msg, node=None):
         raise self.U(f'{self.what}: {msg}' + (f' [{ast.unparse(node)[:80]}]' if node is not None else ''))
@@ -71,7 +105,25 @@ class LP:
             return self.term(self.ex(e, env))
         if isinstance(e, ast.Constant) and isinstance(e.value, int) and not isinstance(e.value, bool) and e.value >= 0:
             return str(e.value)
+        if self.cnt:
+            c = self.counter_read(e, env)
+            if c is not None:
+                return c
+            if (isinstance(e, ast.Call) and isinstance(e.func, ast.Name) and e.func.id == 'sum' and 'sum' not in env and len(e.args) == 1
+                    and not e.keywords and isinstance(e.args[0], ast.Call) and isinstance(e.args[0].func, ast.Attribute)
+                    and e.args[0].func.attr == 'values' and not e.args[0].args and not e.args[0].keywords
+                    and isinstance(e.args[0].func.value, ast.Name) and e.args[0].func.value.id in self.counters
+                    and e.args[0].func.value.id in env):
+                d = e.args[0].func.value.id
+                return f'({self.counters[d][3]} {self.term(env[d])})'
         self.fail('not an integer term (`len(…)` or a literal)', e)
+
+    def counter_read(self, e, env):
+        """`d[k]` for a dictionary of counters d -> (getCount d k), else None"""
+        if (isinstance(e, ast.Subscript) and isinstance(e.value, ast.Name) and e.value.id in self.counters and e.value.id in env
+                and not isinstance(e.slice, ast.Slice)):
+            return f'({self.counters[e.value.id][0]} {self.term(env[e.value.id])} {self.term(self.ex(e.slice, env))})'
+        return None
 
     def bind(self, target, env):
         """a fresh canonical name for the variable a comprehension / `for` loop binds (renaming it in the source changes nothing)"""
@@ -107,11 +159,19 @@ class LP:
             return ('t', f'({self.attrs[e.attr]} {self.term(self.ex(e.value, env))})')
         if isinstance(e, ast.Compare) and len(e.ops) == 1 and isinstance(e.ops[0], ast.Eq) and self.ext:
             return ('t', f'({self.int_term(e.left, env)} == {self.int_term(e.comparators[0], env)})')
+        if isinstance(e, ast.Compare) and len(e.ops) == 1 and isinstance(e.ops[0], (ast.Eq, ast.NotEq)) and self.cnt:
+            op = '==' if isinstance(e.ops[0], ast.Eq) else '!='
+            return ('t', f'({self.int_term(e.left, env)} {op} {self.int_term(e.comparators[0], env)})')
+        if isinstance(e, ast.UnaryOp) and isinstance(e.op, ast.Not) and isinstance(e.operand, ast.Name) and e.operand.id in self.lists:
+            return ('t', f'({self.term(self.ex(e.operand, env))}).isEmpty')
         if isinstance(e, ast.UnaryOp) and isinstance(e.op, ast.Not):
             return ('t', f'(!{self.term(self.ex(e.operand, env))})')
         if isinstance(e, ast.BoolOp):
             op = ' || ' if isinstance(e.op, ast.Or) else ' && '
             return ('t', '(' + op.join(self.term(self.ex(x, env)) for x in e.values) + ')')
+        if (isinstance(e, ast.Compare) and len(e.ops) == 1 and isinstance(e.ops[0], ast.NotIn) and self.sets
+                and isinstance(e.comparators[0], ast.Name) and e.comparators[0].id in self.sets):
+            return ('t', f'(!({self.member} {self.term(self.ex(e.left, env))} {self.term(self.ex(e.comparators[0], env))}))')
         if isinstance(e, ast.Compare) and len(e.ops) == 1 and isinstance(e.ops[0], ast.In):
             return ('t', f'({self.member} {self.term(self.ex(e.left, env))} {self.term(self.ex(e.comparators[0], env))})')
         if isinstance(e, ast.ListComp):
@@ -146,6 +206,14 @@ class LP:
                 self.fail('slice', e)
             if isinstance(e.value, ast.Name) and e.value.id in self.tables and e.value.id not in env:
                 return ('tab', self.tables[e.value.id], self.term(self.ex(sl, env)))
+            if isinstance(e.value, ast.Name) and e.value.id in self.last_of and ast.unparse(sl) == '-1':
+                xs = e.value.id
+                if env.get(xs) != ('t', dict(self.state).get(xs)):
+                    self.fail(f'{xs}[-1] is read after {xs} was changed', e)
+                if self.need_last not in (None, xs):
+                    self.fail('two different lists are read with [-1]', e)
+                self.need_last = xs
+                return ('t', 'last')
             base = self.ex(e.value, env)
             if base[0] == 'lit':
                 k = self.T.const_value(sl)
@@ -160,6 +228,20 @@ class LP:
             f = e.func
             if isinstance(f, ast.Name) and f.id == 'len' and len(e.args) == 1 and not e.keywords:
                 return ('t', f'({self.term(self.ex(e.args[0], env))}).length')
+            if (self.sets and isinstance(f, ast.Attribute) and f.attr == 'issubset' and len(e.args) == 1 and not e.keywords
+                    and isinstance(e.args[0], ast.Name) and e.args[0].id in self.sets and isinstance(f.value, ast.Call)
+                    and isinstance(f.value.func, ast.Name) and f.value.func.id == 'set' and 'set' not in env and len(f.value.args) == 1
+                    and not f.value.keywords):
+                xs = self.term(self.ex(f.value.args[0], env))
+                self.depth += 1
+                x = f'x{self.depth}'
+                self.depth -= 1
+                return ('t', f'(({xs}).all (fun {x} => ({self.member} {x} {self.term(self.ex(e.args[0], env))})))')
+            if self.cnt and isinstance(f, ast.Name) and f.id == 'list' and 'list' not in env and not e.args and not e.keywords:
+                return ('lit', [])
+            if ((self.cnt or self.sets) and isinstance(f, ast.Name) and f.id == 'deque' and 'deque' not in env and len(e.args) == 1 and not e.keywords
+                    and isinstance(e.args[0], ast.List)):
+                return self.ex(e.args[0], env)
             if isinstance(f, ast.Attribute) and f.attr in self.methods and not e.args and not e.keywords:
                 return ('t', f'({self.methods[f.attr]} {self.term(self.ex(f.value, env))})')
             if (isinstance(f, ast.Name) and f.id == 'isinstance' and len(e.args) == 2 and not e.keywords
@@ -199,6 +281,33 @@ class LP:
 
     def stmt(self, s, env):
         env = dict(env)
+        if self.cnt:
+            r = self.counter_stmt(s, env)
+            if r is not None:
+                return r
+        if (self.cnt or self.sets) and isinstance(s, ast.For):
+            return self.for_fold(s, env)
+        if self.sets:
+            if (isinstance(s, ast.Assign) and len(s.targets) == 1 and isinstance(s.targets[0], ast.Name) and s.targets[0].id in self.sets):
+                if not isinstance(s.value, ast.Set):
+                    self.fail(f'the set {s.targets[0].id} is not created by a set display', s)
+                env[s.targets[0].id] = ('lit', [self.ex(x, env) for x in s.value.elts])
+                return env
+            if (isinstance(s, ast.Expr) and isinstance(s.value, ast.Call) and isinstance(s.value.func, ast.Attribute)
+                    and isinstance(s.value.func.value, ast.Name) and not s.value.keywords):
+                xs, m, args = s.value.func.value.id, s.value.func.attr, s.value.args
+                if m == 'add' and len(args) == 1 and xs in self.sets and xs in env:
+                    self.mutated(xs, s)
+                    env[xs] = ('t', f'({self.term(env[xs])} ++ [{self.term(self.ex(args[0], env))}])')
+                    return env
+                if m == 'pop' and not args and xs in env and xs not in self.sets:
+                    self.mutated(xs, s)
+                    env[xs] = ('t', f'({self.term(env[xs])}).dropLast')
+                    return env
+        if self.yields and isinstance(s, ast.Expr) and isinstance(s.value, ast.Yield) and s.value.value is not None:
+            y = self.yields
+            env[y] = ('t', f'({self.term(env[y])} ++ [{self.term(self.ex(s.value.value, env))}])')
+            return env
         if isinstance(s, ast.Assign) and len(s.targets) == 1 and isinstance(s.targets[0], ast.Name):
             v = s.value
             if (isinstance(v, ast.Call) and isinstance(v.func, ast.Attribute) and v.func.attr == 'pop' and not v.args
@@ -256,6 +365,8 @@ class LP:
             return out
         if isinstance(s, ast.Expr) and isinstance(s.value, ast.Constant):
             return env
+        if isinstance(s, ast.Pass) and self.sets:
+            return env
         self.fail('statement', s)
 
     def for_acc(self, s, env):
@@ -292,6 +403,180 @@ class LP:
         env = dict(env)
         env[acc] = ('t', f'([] ++ ({xs}).flatMap (fun {x} => {self.term(out[acc])}))')
         return env
+
+    # ---- the Kahn-loop idioms (only reached when `counters` is given) ---------------------------------------------------
+    def counter_stmt(self, s, env):
+        '''`d = defaultdict(int)`, `d[k] = <literal>`, `d[k] += <literal>`, `d[k] -= <literal>` on a dictionary of counters; None otherwise'''
+        if isinstance(s, ast.Assign) and len(s.targets) == 1:
+            t, v = s.targets[0], s.value
+            if isinstance(t, ast.Name) and t.id in self.counters:
+                if (isinstance(v, ast.Call) and isinstance(v.func, ast.Name) and v.func.id == 'defaultdict' and 'defaultdict' not in env
+                        and len(v.args) == 1 and not v.keywords and isinstance(v.args[0], ast.Name) and v.args[0].id == 'int' and 'int' not in env):
+                    env[t.id] = ('t', self.counters[t.id][2])
+                    return env
+                self.fail(f'the dictionary of counters {t.id} is not created by defaultdict(int)', s)
+            if isinstance(t, ast.Subscript) and isinstance(t.value, ast.Name) and t.value.id in self.counters:
+                d = t.value.id
+                if d not in env or isinstance(t.slice, ast.Slice):
+                    self.fail('assignment to a counter', s)
+                if not (isinstance(v, ast.Constant) and isinstance(v.value, int) and not isinstance(v.value, bool) and v.value >= 0):
+                    self.fail('a counter is assigned something else than a non-negative integer literal', s)
+                env[d] = ('t', f'({self.counters[d][1]} {self.term(env[d])} {self.term(self.ex(t.slice, env))} {v.value})')
+                return env
+        if isinstance(s, ast.AugAssign) and isinstance(s.target, ast.Subscript) and isinstance(s.target.value, ast.Name) \
+                and s.target.value.id in self.counters:
+            d = s.target.value.id
+            if d not in env or isinstance(s.target.slice, ast.Slice) or not isinstance(s.op, (ast.Add, ast.Sub)):
+                self.fail('update of a counter', s)
+            v = s.value
+            if not (isinstance(v, ast.Constant) and isinstance(v.value, int) and not isinstance(v.value, bool) and v.value >= 0):
+                self.fail('a counter is changed by something else than a non-negative integer literal', s)
+            k = self.term(self.ex(s.target.slice, env))
+            op = '+' if isinstance(s.op, ast.Add) else '-'
+            get, set_ = self.counters[d][0], self.counters[d][1]
+            env[d] = ('t', f'({set_} {self.term(env[d])} {k} (({get} {self.term(env[d])} {k}) {op} {v.value}))')
+            return env
+        return None
+
+    @staticmethod
+    def proj(var, i, n):
+        '''component i of an n-tuple (Lean tuples are nested pairs)'''
+        if n == 1:
+            return var
+        return var + '.2' * i + ('.1' if i < n - 1 else '')
+
+    def for_fold(self, s, env):
+        '''`for c in xs: <body>` -> a left fold over xs whose state is the tuple of the variables the body changes'''
+        if s.orelse or getattr(s, 'type_comment', None):
+            self.fail('for … else', s)
+        for n in ast.walk(s):
+            if isinstance(n, (ast.Break, ast.Continue, ast.Return, ast.While, ast.Yield, ast.YieldFrom)):
+                self.fail('control flow inside a `for` loop', s)
+        # the variables the body may change: targets of assignments / receivers of method statements, known before the loop
+        touched = set()
+        for n in ast.walk(s):
+            if isinstance(n, (ast.Assign, ast.AugAssign, ast.AnnAssign)):
+                for t in (n.targets if isinstance(n, ast.Assign) else [n.target]):
+                    for m in ast.walk(t):
+                        if isinstance(m, ast.Name):
+                            touched.add(m.id)
+            if isinstance(n, ast.Expr) and isinstance(n.value, ast.Call) and isinstance(n.value.func, ast.Attribute) \
+                    and isinstance(n.value.func.value, ast.Name):
+                touched.add(n.value.func.value.id)
+            if isinstance(n, ast.Delete):
+                self.fail('del inside a `for` loop', s)
+        order = [p for p, _ in self.state] + [k for k in env if k not in dict(self.state)]
+        mods = [k for k in order if k in touched and k in env]
+        if not mods:
+            self.fail('the `for` loop changes no known variable', s)
+        for m in mods:
+            if m not in self.types:
+                self.fail(f'no type is declared for the variable {m} changed by the `for` loop', s)
+            self.mutated(m, s)
+        xs = self.term(self.ex(s.iter, env))
+        x, env2 = self.bind(s.target, env)
+        st, n = f'st{self.depth}', len(mods)
+        for i, m in enumerate(mods):
+            env2[m] = ('t', self.proj(st, i, n))
+        start = {k: v for k, v in env2.items()}
+        out = self.block(s.body, env2)
+        self.depth -= 1
+        for k in env:
+            if k not in mods and out.get(k) != start.get(k):
+                self.fail(f'the body of the `for` loop changes {k}', s)
+        comps = [self.term(out[m]) for m in mods]
+        inits = [self.term(env[m]) for m in mods]
+
+        def tup(cs):
+            # (X.1, X.2.1, X.2.2) is X
+            if len(cs) > 1 and cs[0].endswith('.1'):
+                base = cs[0][:-2]
+                if cs == [self.proj(base, i, len(cs)) for i in range(len(cs))]:
+                    return base
+            return cs[0] if len(cs) == 1 else '(' + ', '.join(cs) + ')'
+        ty = ' × '.join(self.types[m] for m in mods)
+        fold = f'(({xs}).foldl (fun ({st} : {ty}) {x} => {tup(comps)}) {tup(inits)})'
+        env = dict(env)
+        for i, m in enumerate(mods):
+            env[m] = ('t', self.proj(fold, i, n))
+        return env
+
+    def result_tuple(self, env):
+        return '(' + ', '.join(self.term(env[p]) for p, _ in self.state) + ')'
+
+    def loop_step_queue(self, loop, top):
+        '''`while q: <x> = q.popleft(); …` (q a deque, rendered as a list whose front is its head) -> the Lean body'''
+        cond = ast.unparse(loop.test)
+        names = dict(self.state)
+        if cond not in names:
+            self.fail(f'the loop condition `{cond}` is not a state variable')
+        body = [s for s in loop.body if not (isinstance(s, ast.Expr) and isinstance(s.value, ast.Constant))]
+        if loop.orelse:
+            self.fail('while … else')
+        first = body[0]
+        if not (isinstance(first, ast.Assign) and len(first.targets) == 1 and isinstance(first.targets[0], ast.Name)
+                and ast.unparse(first.value) == f'{cond}.popleft()'):
+            self.fail(f'the body does not start with `<x> = {cond}.popleft()`', first)
+        for n in ast.walk(loop):
+            if isinstance(n, (ast.Break, ast.Continue, ast.Return, ast.YieldFrom)) or (isinstance(n, ast.While) and n is not loop) \
+                    or (isinstance(n, ast.Yield) and not self.yields):
+                self.fail('control flow inside the loop', n)
+        env = {p: ('t', l) for p, l in self.state}
+        env[first.targets[0].id] = ('t', top)
+        env[cond] = ('t', f'({names[cond]}).tail')
+        env = self.block(body[1:], env)
+        same = '(' + ', '.join(l for _, l in self.state) + ')'
+        return f'match {names[cond]}.head? with\n  | none => {same}\n  | some {top} =>\n    {self.result_tuple(env)}'
+
+    def loop_step_forever(self, loop, raised):
+        '''`while True: <A>; if c: break; <B>` -> (c, the state at the break when c, else the state after <B>)'''
+        if not (isinstance(loop.test, ast.Constant) and loop.test.value is True) or loop.orelse:
+            self.fail('the loop is not `while True:` without else')
+        body = [s for s in loop.body if not (isinstance(s, ast.Expr) and isinstance(s.value, ast.Constant))]
+        brk = [i for i, s in enumerate(body) if isinstance(s, ast.If) and len(s.body) == 1 and isinstance(s.body[0], ast.Break) and not s.orelse]
+        if len(brk) != 1:
+            self.fail(f'expected exactly one top-level `if <c>: break`, found {len(brk)}')
+        n_break = sum(1 for n in ast.walk(loop) if isinstance(n, ast.Break))
+        if n_break != 1:
+            self.fail('a `break` that is not the top-level one')
+        for n in ast.walk(loop):
+            if isinstance(n, (ast.Continue, ast.Return, ast.Yield, ast.YieldFrom)) or (isinstance(n, ast.While) and n is not loop):
+                self.fail('control flow inside the loop', n)
+        env0 = {p: ('t', l) for p, l in self.state}
+        env1 = self.block(body[:brk[0]], env0)
+        c = self.term(self.ex(body[brk[0]].test, env1))
+        env2 = self.block(body[brk[0] + 1:], env1)
+        comps = []
+        for p, _ in self.state:
+            a, b = self.term(env1[p]), self.term(env2[p])
+            comps.append(a if a == b else f'(if {c} then {a} else {b})')
+        res = '(' + ', '.join([c] + comps) + ')'
+        if self.need_last is None:
+            return res
+        return f'match {dict(self.state)[self.need_last]}.getLast? with\n  | none => {raised}\n  | some last =>\n    {res}'
+
+    def loop_step_stack(self, loop, top):
+        '''`while stack: <x> = stack[-1]; …` with `if c: …; continue` at the top level of the body: the statements after such an `if`
+        become its `else` branch, then as `loop_step`'''
+        if not self.sets:
+            self.fail('loop_step_stack without the generator idioms')
+        body = [s for s in loop.body if not (isinstance(s, ast.Expr) and isinstance(s.value, ast.Constant))]
+
+        def norm(stmts):
+            for i, st in enumerate(stmts):
+                if isinstance(st, ast.If) and not st.orelse and st.body and isinstance(st.body[-1], ast.Continue):
+                    return stmts[:i] + [ast.If(test=st.test, body=st.body[:-1] or [ast.Pass()], orelse=norm(stmts[i + 1:]))]
+            return stmts
+        body = norm(body)
+        for st in body:
+            for n in ast.walk(st):
+                if isinstance(n, (ast.Break, ast.Continue, ast.Return, ast.YieldFrom, ast.While)):
+                    self.fail('control flow inside the loop', n)
+        for n in ast.walk(ast.Module(body=body, type_ignores=[])):
+            if isinstance(n, ast.For) and any(isinstance(m, ast.Yield) for m in ast.walk(n)):
+                self.fail('yield inside a `for` loop', n)
+        new = ast.While(test=loop.test, body=body, orelse=loop.orelse)
+        return self.loop_step(new, top)
 
     def loop_step(self, loop, top):
         """`loop`: the ast.While; `top`: lean name bound to `<cond>[-1]`.  Returns the Lean body (a term over the lean state names)."""
